@@ -35,6 +35,7 @@ class GetterInliner:
     (`this->remaining()` -> `(this.length - this.offset)`)."""
 
     def __init__(self, unit, record_qualname):
+        self.unit = unit
         self.map = {}
         for f in unit.functions:
             q = unit.qualname(f)
@@ -141,6 +142,48 @@ def subst_locals(s, node, inl=None):
     return s
 
 
+_CLAMP = {}
+
+
+def clamp_summary(func):
+    """(index of the capacity parameter, index of the start parameter) when every return of func is
+    either 0 or min(capacity - start, something) reached under start < capacity: a "how much may a
+    clamping read take" helper.  A non-zero result r then implies start < capacity and r <= capacity - start."""
+    key = id(func)
+    if key in _CLAMP:
+        return _CLAMP[key]
+    res = None
+    ps = params_of(func)
+    body = body_of(func)
+    if body is not None and len(ps) >= 2 and all(int_type_info(dtype(p) or '') for p in ps):
+        names = [p.get('name') for p in ps]
+        cand = None
+        ok = True
+        rets = [r for r in walk(body) if r.get('kind') == 'ReturnStmt' and kids(r)]
+        for r in rets:
+            e = subst_locals(nf(kids(r)[0]), r)
+            if int_value(kids(r)[0]) == 0 or e == '0':
+                continue
+            found = None
+            for iL, L in enumerate(names):
+                for iO, O in enumerate(names):
+                    if iL == iO:
+                        continue
+                    diff = '(%s - %s)' % (L, O)
+                    if e == diff or (e.startswith('min(') and diff in _call_args_of(e)):
+                        rl = [(subst_locals(nf(x[0]), r), x[1], subst_locals(nf(x[2]), r)) for x in [relation(n_, p_) for n_, p_ in atoms(path_facts(r))] if x]
+                        if holds(rl, O, ('<',), L):
+                            found = (iL, iO)
+            if found is None or (cand is not None and cand != found):
+                ok = False
+                break
+            cand = found
+        if ok and cand is not None and rets:
+            res = cand
+    _CLAMP[key] = res
+    return res
+
+
 def rels_at(site, inl, extra=()):
     """Normalised relations (lhs, op, rhs) as canon strings holding at site."""
     out = []
@@ -148,6 +191,25 @@ def rels_at(site, inl, extra=()):
         r = relation(n, pol)
         if r:
             out.append((inl.c(r[0]), r[1], inl.c(r[2])))
+            # `v != 0` / `v > 0` where v = clamp(capacity, start, n): start < capacity and v <= capacity - start
+            for v_, z_ in ((r[0], r[2]), (r[2], r[0])):
+                if int_value(z_) == 0 and ((r[1] in ('!=', '>') and v_ is r[0]) or (r[1] in ('!=', '<') and v_ is r[2])):
+                    rd = ref_decl(v_)
+                    f_ = enclosing_function(site)
+                    vd = next((x for x in walk(body_of(f_)) if x.get('kind') == 'VarDecl' and rd is not None and x.get('id') == rd.get('id') and kids(x)), None) if f_ is not None and body_of(f_) is not None else None
+                    call = strip(kids(vd)[-1]) if vd is not None else None
+                    while call is not None and call.get('kind') in ('ImplicitCastExpr', 'ExprWithCleanups', 'ParenExpr') and kids(call):
+                        call = strip(kids(call)[0])
+                    if call is not None and call.get('kind') == 'CallExpr' and getattr(inl, 'unit', None) is not None:
+                        d = callee_decl(call, inl.unit)
+                        cs = clamp_summary(d) if d is not None and body_of(d) is not None else None
+                        a_ = call_args(call)
+                        if cs and len(a_) > max(cs):
+                            L_, O_ = inl.c(a_[cs[0]]), inl.c(a_[cs[1]])
+                            out.append((O_, '<', L_))
+                            out.append((inl.c(v_), '<=', '(%s - %s)' % (L_, O_)))
+        elif pol and ref_decl(n) is not None:
+            pass
     out.extend(extra)
     return out
 
